@@ -106,7 +106,9 @@ MANIFEST = {
     "text": "Proof: every unwrap/expect/assert/panic!/unreachable! of asm.rs, ops.rs, ops/expression.rs, ops/macros.rs, ingest.rs and the "
             "literal parser is an explicit panic outcome of the models; assemble never yields one (other than the model's own fuel "
             "marker) for any item list — recursive and mis-applied macros, division by zero, negative and out-of-range operands "
-            "included; recursion is cut off with an error value after 255 macro levels / 255 nested sources; literal conversion fails "
+            "included; and it TERMINATES: with fuel above the explicit bound 257 * (opsSize + 2) the fuel marker cannot appear either "
+            "(C14_terminates; more fuel never changes an answer, C14_fuel_monotone), because macro nesting is cut off after 255 levels "
+            "and bodies are finite; recursion is cut off with an error value after 255 macro levels / 255 nested sources; literal conversion fails "
             "only on strings the grammar cannot produce; ingestion returns bytes or an error value.",
     "note": "PARTIAL BY NATURE: (a) the parse layer's unwraps depend on the pair-tree shape produced by pest — exercised against the real "
             "parser on valid / near-valid / token-soup / raw inputs and file graphs (outcome classes must equal the model's, never panic "
